@@ -39,7 +39,7 @@ StepCall(r, wr, e) ==
     [] e.op = "close" -> Close(wr, NextCSize(r, wr))
     [] OTHER -> wr
 
-ProjFields == {"off", "msgs", "schemas", "channels", "atts", "mds", "chunks", "start", "end", "nci", "nai", "nmi"}
+ProjFields == {"off", "msgs", "schemas", "channels", "atts", "mds", "chunks", "start", "end", "nci", "nai", "nmi", "nw"}
 ProjDiff(wr, st) == {f \in ProjFields : Proj(wr)[f] # st[f]}
 
 Layout(recs) == [i \in DOMAIN recs |->
